@@ -15,6 +15,7 @@ import (
 	"fmt"
 	"os"
 	"path/filepath"
+	"reflect"
 	"sort"
 	"strconv"
 	"strings"
@@ -96,6 +97,115 @@ func c17JSONNulls(v any, path string, out *[]string) {
 	}
 }
 
+// c17JSONShape walks the decoded JSON along the Go type it encodes (every exported field of
+// report.StackSet and of the types it contains, found by reflection — fields added later are
+// covered without touching this file): wherever the type has a slice, map or struct the JSON must
+// have an array / object — not null, not a missing key (omitempty), not another kind.
+func c17JSONShape(v any, t reflect.Type, path string, out *[]string) {
+	switch t.Kind() {
+	case reflect.Slice, reflect.Array:
+		if t.Elem().Kind() == reflect.Uint8 {
+			return // []byte is a base64 string
+		}
+		arr, ok := v.([]any)
+		if !ok {
+			*out = append(*out, fmt.Sprintf("%s:%s-for-array", path, c17JSONKind(v)))
+			return
+		}
+		for _, e := range arr {
+			c17JSONShape(e, t.Elem(), path+"[]", out)
+		}
+	case reflect.Map:
+		m, ok := v.(map[string]any)
+		if !ok {
+			*out = append(*out, fmt.Sprintf("%s:%s-for-object", path, c17JSONKind(v)))
+			return
+		}
+		for _, k := range sortedKeys(m) {
+			c17JSONShape(m[k], t.Elem(), path+"{}", out)
+		}
+	case reflect.Ptr:
+		if v == nil {
+			*out = append(*out, path+":null-for-pointer")
+			return
+		}
+		c17JSONShape(v, t.Elem(), path, out)
+	case reflect.Struct:
+		m, ok := v.(map[string]any)
+		if !ok {
+			*out = append(*out, fmt.Sprintf("%s:%s-for-object", path, c17JSONKind(v)))
+			return
+		}
+		for i := 0; i < t.NumField(); i++ {
+			f := t.Field(i)
+			if f.PkgPath != "" { // unexported: not encoded
+				continue
+			}
+			name := f.Name
+			if tag := strings.Split(f.Tag.Get("json"), ",")[0]; tag == "-" {
+				continue
+			} else if tag != "" {
+				name = tag
+			}
+			switch f.Type.Kind() {
+			case reflect.Slice, reflect.Array, reflect.Map, reflect.Struct, reflect.Ptr:
+				fv, present := m[name]
+				if !present {
+					*out = append(*out, path+"."+name+":missing")
+					continue
+				}
+				c17JSONShape(fv, f.Type, path+"."+name, out)
+			}
+		}
+	}
+}
+
+func c17JSONKind(v any) string {
+	switch v.(type) {
+	case nil:
+		return "null"
+	case []any:
+		return "array"
+	case map[string]any:
+		return "object"
+	case string:
+		return "string"
+	default:
+		return "scalar"
+	}
+}
+
+// c17NilWalk: the same walk on the in-memory value — nil slices, maps and pointers in exported
+// fields (what encoding/json prints as null).
+func c17NilWalk(v reflect.Value, path string, out *[]string) {
+	switch v.Kind() {
+	case reflect.Slice, reflect.Map, reflect.Ptr, reflect.Interface:
+		if v.IsNil() {
+			*out = append(*out, path)
+			return
+		}
+	}
+	switch v.Kind() {
+	case reflect.Slice, reflect.Array:
+		for i := 0; i < v.Len(); i++ {
+			c17NilWalk(v.Index(i), path+"[]", out)
+		}
+	case reflect.Ptr, reflect.Interface:
+		c17NilWalk(v.Elem(), path, out)
+	case reflect.Map:
+		it := v.MapRange()
+		for it.Next() {
+			c17NilWalk(it.Value(), path+"{}", out)
+		}
+	case reflect.Struct:
+		for i := 0; i < v.NumField(); i++ {
+			if f := v.Type().Field(i); f.PkgPath == "" {
+				c17NilWalk(v.Field(i), path+"."+f.Name, out)
+			}
+		}
+	}
+}
+
 type c17JSONSet struct {
 	Total   int64
 	Type    string
@@ -123,6 +233,13 @@ func c17FromJSON(b []byte) (*c17Set, []string, error) {
 	}
 	var nulls []string
 	c17JSONNulls(generic, "$", &nulls)
+	var shape []string
+	c17JSONShape(generic, reflect.TypeOf(report.StackSet{}), "$", &shape)
+	for _, sh := range shape {
+		if !strings.HasSuffix(sh, ":null-for-array") && !strings.HasSuffix(sh, ":null-for-object") && !strings.HasSuffix(sh, ":null-for-pointer") {
+			nulls = append(nulls, sh) // nulls are already listed by the untyped walk
+		}
+	}
 	var js c17JSONSet
 	if err := json.Unmarshal(b, &js); err != nil {
 		return nil, nulls, err
@@ -371,6 +488,11 @@ func c17Run(c *Ctx, cs c17Case) {
 			return
 		}
 		real = c17FromReal(&ss)
+		var nils []string
+		c17NilWalk(reflect.ValueOf(ss), "StackSet", &nils)
+		if len(nils) > 0 {
+			c.Violation("C17/nil/"+nils[0], "nil slice/map/pointer in the stack set (JSON null): "+c17Trunc(strings.Join(nils, ", ")), cs)
+		}
 		// the JSON encoding handed to the page
 		b, err := json.Marshal(ss)
 		if err != nil {
@@ -514,6 +636,23 @@ func c17Run(c *Ctx, cs c17Case) {
 	if shared {
 		c.Res.Hit("interning-hit")
 	}
+	maxName := 0
+	for _, f := range agg.Function {
+		if len(f.Name) > maxName {
+			maxName = len(f.Name)
+		}
+		if len(f.Filename) > maxName {
+			maxName = len(f.Filename)
+		}
+	}
+	switch {
+	case maxName >= 65536:
+		c.Res.Hit("name-len>=65536")
+	case maxName > 1024:
+		c.Res.Hit("name-len>1024")
+	case maxName >= 1023:
+		c.Res.Hit("name-len1023-1024")
+	}
 	if len(real.Stacks) == 0 {
 		c.Res.Hit("no-samples")
 	}
@@ -561,7 +700,7 @@ func runC17(c *Ctx) {
 			c17Run(c, cs)
 		}
 	}
-	nDirect, nWeb := 12000*c.Scale, 1200*c.Scale
+	nDirect, nWeb := 9000*c.Scale, 900*c.Scale
 	for i := 0; i < nDirect; i++ {
 		c17Run(c, c17Gen(r.Fork(), "direct", i))
 	}
